@@ -18,8 +18,8 @@ META = {
 }
 
 MODEL = ["theories/Sni/WireCorr.vo"]          # needed to evaluate the model
-PROOFS = ["theories/Props/C13.vo"]
-STATEMENT_FILES = ["theories/Props/C13.v", "theories/Sni/WireGen.v"]
+PROOFS = ["theories/Props/C13.vo", "theories/Sni/WireLegacy.vo"]
+STATEMENT_FILES = ["theories/Props/C13.v", "theories/Sni/WireGen.v", "theories/Sni/WireLegacy.v"]
 
 ERRCODE = {"ok": 0, "eof": 1, "tail": 2, "toolong": 3}
 
